@@ -448,7 +448,20 @@ def conc(data, kind=None, shape=None):
                 return conc([[d[i][j] for i in range(shp_[0])] for j in range(shp_[1])], o.attrs['dtype'].attrs['kind'], (shp_[1], shp_[0]))
             if len(shp_) <= 1:
                 return o
-            raise Undecided('transpose of a %d-d concrete array' % len(shp_))
+            # n-d: the element at (i0, ..., ik) goes to (ik, ..., i0)
+            import itertools as _it
+            rshape = tuple(reversed(shp_))
+
+            def at(data, idx):
+                for i in idx:
+                    data = data[i]
+                return data
+
+            def build(prefix):
+                if len(prefix) == len(rshape):
+                    return at(d, tuple(reversed(prefix)))
+                return [build(prefix + (i,)) for i in range(rshape[len(prefix)])]
+            return conc(build(()), o.attrs['dtype'].attrs['kind'], rshape)
         return KeyError
     a.hooks['getattr'] = getattr_hook
     return a
@@ -823,6 +836,10 @@ def sc_reshape(P):
     for t in (['a', 'b', 'c'], ['b', 'a', 'c'], ['c', 'b', 'a'], ['a', 'c'], ['c', 'a'], ['a', 'b,c'], ['a,b', 'c'], ['a', 'n1', 'c'], ['b']):
         out.append(('singleton b: %s -> list %s' % (list(d1[0]), t), lambda t=t: ([A(P, *d1), list(t)], {}, OPTS(P))))
     out.append(('singleton b: %s -> list %s, transpose=False' % (list(d1[0]), ['a', 'c']), lambda: ([A(P, *d1), ['a', 'c']], {'transpose': False}, OPTS(P))))
+    # two singleton dimensions, one requested and one not: only the unwanted one goes, the other keeps its label
+    d11 = (('a', 'b', 'c', 'd'), (2, 1, 4, 1))
+    for t in (['a', 'b', 'c'], ['a', 'c', 'd'], ['d', 'a', 'c'], ['a', 'c'], ['a', 'b,c'], ['b', 'a', 'c']):
+        out.append(('singletons b, d: %s -> list %s' % (list(d11[0]), t), lambda t=t: ([A(P, *d11), list(t)], {}, OPTS(P))))
     # several groups, with more dimensions before / between / after them
     d5 = (('a', 'b', 'c', 'd', 'e'), (2, 3, 4, 5, 6))
     for t in (['a,b', 'c,d', 'e'], ['a', 'b,c', 'd,e'], ['a,b', 'c', 'd,e'], ['e', 'a,b', 'c,d'], ['a,b', 'c,d,e'], ['b,a', 'd,c', 'e'], ['c,d', 'a,b', 'e'], ['a', 'b,c', 'd', 'e'],
